@@ -892,6 +892,32 @@ func (v *FnVC) callMods(ci ssa.CallInstruction) *ModSet {
 		if intrinsicPure(sc) {
 			return ms
 		}
+		// sort.Slice & co. permute the elements of their argument and call the comparator; nothing else
+		switch sc.String() {
+		case "sort.Slice", "sort.SliceStable", "sort.Strings", "sort.Ints":
+			var st types.Type
+			a0 := c.Args[0]
+			if mi, ok := a0.(*ssa.MakeInterface); ok {
+				st = mi.X.Type()
+			} else {
+				st = a0.Type()
+			}
+			if sl, ok := under(st).(*types.Slice); ok {
+				tmp := map[string]Sort{}
+				elemStoreFams(sl.Elem(), tmp)
+				for k, so := range tmp {
+					ms.add(k, so)
+				}
+				targets, ok := funcArgTargets(c, ci.Parent(), v.w)
+				if !ok {
+					ms.Top = true
+				}
+				for _, t := range targets {
+					ms.union(v.w.mods.Of(t))
+				}
+				return ms
+			}
+		}
 		if con := v.w.Contracts.ByFunc[sc]; con != nil {
 			if con.Pure || con.AssignsNothing {
 				return ms
@@ -902,6 +928,15 @@ func (v *FnVC) callMods(ci ssa.CallInstruction) *ModSet {
 			}
 		}
 		ms.union(v.w.mods.Of(sc))
+		if v.w.IsParametric(sc) {
+			targets, ok := funcArgTargets(c, ci.Parent(), v.w)
+			if !ok {
+				ms.Top = true
+			}
+			for _, t := range targets {
+				ms.union(v.w.mods.Of(t))
+			}
+		}
 		return ms
 	}
 	// dynamic: union over CHA edges
